@@ -409,8 +409,16 @@ func checkItemOffsets(w *core.World, r *core.Report, name string) {
 			continue
 		}
 		n++
-		ok := core.Unwrap(a[1]) == ssa.Value(start) || isStartPlusDecoded(a[1], start)
-		r.Check(ok, "parseAofCommand/select-offset", s.Pos(), "SELECT item offset must be startOffset or startOffset + decoder offset, found %s", a[1].String())
+		var dec ssa.Instruction
+		for _, d := range core.SitesNamed(f, false, "pkg/redis/client.MustDecodeOpt") {
+			dec = d.Instr
+		}
+		inLoopSel := dec != nil && core.PathFrom(f, dec, core.Is(s.Instr), nil) != nil
+		if inLoopSel {
+			r.Check(isStartPlusDecoded(a[1], start), "parseAofCommand/select-offset", s.Pos(), "a SELECT forwarded from the stream must carry startOffset + decoder offset of the same iteration (its own end), found %s", a[1].String())
+		} else {
+			r.Check(core.Unwrap(a[1]) == ssa.Value(start), "parseAofCommand/resume-select-offset", s.Pos(), "the resume SELECT emitted before decoding must carry the start offset, found %s", a[1].String())
+		}
 	}
 	if n == 0 {
 		r.Fail("parseAofCommand/item-offset", f.Pos(), "no item offset definition found")
@@ -557,6 +565,10 @@ func c02(w *core.World, r *core.Report) {
 	r.Rule("R02.3", "a flush never stores the offset of the current item unless the item is queued, is a keep-alive, or is the EXEC that closes a queued transaction (all paths of one sender iteration, constant flags pruned)", 2)
 	if c != nil {
 		ruleOvershoot(w, r, c, false)
+	}
+	r.Rule("R02.7", "transactional mode: every flush of queued commands is sent inside MULTI/EXEC; only the keep-alive ping queued into an empty queue may go bare (all paths of one sender iteration)", 1)
+	if c != nil {
+		ruleTxnFlushWrapped(w, r, c)
 	}
 	r.Rule("R02.4", "resume database: StartPoint keeps GetCheckpoint's database; the parser emits SELECT(startDbId) before decoding", 3)
 	ruleResumeDb(w, r)
@@ -779,6 +791,38 @@ func ruleResumeDb(w *core.World, r *core.Report) {
 			}
 		}
 		r.Check(stored, "RedisOutput.StartPoint/startDbId", f.Pos(), "the checkpoint's database is not stored as the database to re-select on resume")
+		// ... on every path that returns a start point taken from the checkpoint (the output object is
+		// reused across in-process restarts, so a skipped store leaves the previous run's database)
+		isStore := func(in ssa.Instruction) bool {
+			st, ok := in.(*ssa.Store)
+			if !ok {
+				return false
+			}
+			fa, ok := st.Addr.(*ssa.FieldAddr)
+			return ok && core.FieldName(fa) == "startDbId" && core.DependsOn(st.Val, isResultOf("(*syncer.RedisOutput).checkpoint", 1))
+		}
+		n := 0
+		for _, in := range core.Instrs(f) {
+			ret, ok := in.(*ssa.Return)
+			if !ok || len(ret.Results) == 0 {
+				continue
+			}
+			uses := false
+			for _, rv := range core.RetVals(ret, 0) {
+				if core.DependsOn(rv, isResultOf("(*syncer.RedisOutput).checkpoint", 0)) {
+					uses = true
+				}
+			}
+			if !uses {
+				continue
+			}
+			n++
+			r.Check(core.MustPass(f, ret, isStore), "RedisOutput.StartPoint/startDbId-unconditional", ret.Pos(),
+				"a start point taken from the checkpoint is returned on a path that did not store the checkpoint's database: a later restart re-selects a stale database")
+		}
+		if n == 0 {
+			r.Fail("RedisOutput.StartPoint/startDbId-unconditional", f.Pos(), "no return of a checkpoint-derived start point found")
+		}
 	}
 	// (c) the parser emits select(startDbId) before the decode loop
 	if f := fn(w, r, "(*syncer.RedisOutput).parseAofCommand"); f != nil {
@@ -928,7 +972,7 @@ func c09(w *core.World, r *core.Report) {
 	if c != nil {
 		ruleClearAfterFlush(w, r, c)
 	}
-	r.Rule("R09.3", "state machine: inside a transaction a flush is requested only on EXEC; command table is {select: barrier, multi: begin, exec: commit}", 3)
+	r.Rule("R09.3", "state machine: inside a transaction a flush is requested only on EXEC; outside, the result is the command-table lookup for every state; command table is {select: barrier, multi: begin, exec: commit}", 6)
 	ruleTxnStateMachine(w, r)
 	r.Rule("R09.4", "resume never lands inside a transaction (overshoot rule, see R02.3)", 2)
 	if c != nil {
@@ -1151,6 +1195,55 @@ func ruleTxnStateMachine(w *core.World, r *core.Report) {
 	} else {
 		r.Check(bad == "", "transactionStatus/inside", badPos, "%s", bad)
 	}
+	// outside a transaction (previous state no / barrier / commit) the result is the table lookup:
+	// (table[cmd], true) for a table command, (no, false) otherwise. A state missing from the case
+	// list falls to the default and turns every following command into a barrier.
+	no, _ := pkgConstInt(w, "syncer", "txnStatusNo")
+	isLookupPart := func(idx int) func(ssa.Value) bool {
+		return func(v ssa.Value) bool {
+			e, ok := core.Unwrap(v).(*ssa.Extract)
+			if !ok || e.Index != idx {
+				return false
+			}
+			_, ok = e.Tuple.(*ssa.Lookup)
+			return ok
+		}
+	}
+	for name, st := range map[string]int64{"no": no, "barrier": barrier, "commit": commit} {
+		n := 0
+		okAll := true
+		var pos token.Pos = f.Pos()
+		core.EnumPaths(f.Blocks[0], 0, 10000, func(p *core.Path) {
+			ret, ok := p.End.(*ssa.Return)
+			if !ok || len(ret.Results) != 2 || !p.Holds(token.EQL, isPrev, isConstInt(st)) {
+				return
+			}
+			n++
+			found := false
+			for _, fct := range p.Conds {
+				if isLookupPart(1)(p.Resolve(fct.Cond)) {
+					found = true
+					fl, known := p.Eval(ret.Results[1])
+					if !known || fl != fct.Val {
+						okAll, pos = false, ret.Pos()
+					}
+					if fct.Val && !isLookupPart(0)(p.Resolve(ret.Results[0])) {
+						okAll, pos = false, ret.Pos()
+					}
+					if !fct.Val {
+						if k, isC := core.ConstInt(p.Resolve(ret.Results[0])); !isC || k != no {
+							okAll, pos = false, ret.Pos()
+						}
+					}
+				}
+			}
+			if !found {
+				okAll, pos = false, ret.Pos()
+			}
+		})
+		r.Check(n > 0 && okAll, "transactionStatus/outside-"+name, pos,
+			"previous state %q must be handled by the command-table lookup: (table[cmd], true) for select/multi/exec, (no, false) otherwise (paths=%d)", name, n)
+	}
 	// table
 	keys, pos, ok := astCompositeStrings(w, "syncer", "transactionCmdMap", true)
 	if !ok {
@@ -1175,4 +1268,64 @@ func ruleTxnStateMachine(w *core.World, r *core.Report) {
 		}
 	}
 	r.Check(okV, "transactionCmdMap/values", pos, "command table must map select→barrier, multi→begin, exec→commit, found %v", vals)
+}
+
+// ruleTxnFlushWrapped is R02.7.
+func ruleTxnFlushWrapped(w *core.World, r *core.Report, c *senderCtx) {
+	txn := param(c.main, "transactionMode")
+	if txn == nil {
+		r.Unresolved("sendCmdsBatch/transactionMode", "transaction-mode parameter not found")
+		return
+	}
+	isQueueLen := func(v ssa.Value) bool {
+		call, ok := core.Unwrap(v).(*ssa.Call)
+		if !ok {
+			return false
+		}
+		b, ok := call.Call.Value.(*ssa.Builtin)
+		if !ok || b.Name() != "len" || len(call.Call.Args) != 1 {
+			return false
+		}
+		ld, ok := call.Call.Args[0].(*ssa.UnOp)
+		return ok && ld.Op == token.MUL && core.Cell(ld.X) == c.queue
+	}
+	bad := ""
+	var badPos token.Pos
+	n := 0
+	okEnum := core.EnumPathsSeed(c.head, 0, 200000, 1, func(p *core.Path) { p.Assume(txn, true) }, func(p *core.Path) {
+		pingQueued := false
+		for _, in := range p.Instrs {
+			if el, ok := c.appendedElems(in); ok {
+				for _, e := range el {
+					if !c.isItemVal(p.Resolve(e)) {
+						pingQueued = true
+					}
+				}
+			}
+		}
+		c.sendCalls(p, func(s core.Site, _ bool, _ int) {
+			n++
+			args := s.Common().Args
+			if len(args) < 3 || bad != "" {
+				return
+			}
+			v, known := p.Eval(args[len(args)-3])
+			if known && v {
+				return
+			}
+			if known && !v && pingQueued && p.Holds(token.EQL, isQueueLen, isConstInt(0)) {
+				return
+			}
+			bad, badPos = "in transactional mode a flush can be sent without MULTI/EXEC although the queue may hold stream commands (only the keep-alive ping put into an empty queue may go bare): a crash inside that batch re-executes writes", s.Pos()
+		})
+	})
+	if !okEnum {
+		r.Undecided("sendCmdsBatch/txn-wrapped", c.head.Instrs[0].Pos(), "too many paths")
+		return
+	}
+	if n == 0 {
+		r.Fail("sendCmdsBatch/txn-wrapped", c.main.Pos(), "no flush found")
+		return
+	}
+	r.Check(bad == "", "sendCmdsBatch/txn-wrapped", badPos, "%s", bad)
 }
